@@ -40,6 +40,23 @@ def body_for(kind, v, w=None, k=1):
     if kind == "condinc":
         return ("fn", [], "int", [("if", ("bin", "<", V(v), I(5)), [("decl", v, None, ("bin", "+", V(v), I(k)), ("modify",))],
                                   [("decl", v, None, I(0), ("modify",))]), ("return", V(v))])
+    if kind == "inctwice":
+        # `modify` of one captured variable at the top level of the closure AND again inside a nested block
+        return ("fn", [], "int", [("decl", v, None, ("bin", "+", V(v), I(k)), ("modify",)),
+                                  ("if", ("bin", ">", V(v), I(2)), [("decl", v, None, ("bin", "+", V(v), I(10)), ("modify",))], None), ("return", V(v))])
+    if kind == "loopshadow":
+        # a loop body declares its OWN variable named like the captured one; after the loop - inside a block, or inside a closure
+        # created there - the name means the captured variable again
+        return ("fn", [], "int", [("decl", "go", None, I(0), ()),
+                                  ("while", ("bin", "<", V("go"), I(1)), [("decl", "go", None, ("bin", "+", V("go"), I(1)), ()), ("decl", v, None, I(70 + k), ())]),
+                                  ("if", ("bin", "==", V("go"), I(1)), [("return", ("bin", "+", V(v), I(0)))], None), ("return", I(0 - 1))])
+    if kind == "loopshadowinner":
+        return ("fn", [], "int", [("decl", "go", None, I(0), ()),
+                                  ("while", ("bin", "<", V("go"), I(1)), [("decl", "go", None, ("bin", "+", V("go"), I(1)), ()), ("decl", v, None, I(70 + k), ())]),
+                                  ("decl", "late", None, ("fn", [], "int", [("return", V(v))]), ()), ("return", ("call", V("late"), []))])
+    if kind == "ifshadow":
+        return ("fn", [], "int", [("if", ("bin", ">=", I(k), I(0)), [("decl", v, None, I(70 + k), ())], None),
+                                  ("from", I(0), I(1), False, None, None, [("return", V(v))]), ("return", I(0 - 1))])
     if kind == "localcopy":
         # the local-copy idiom: the right-hand side reads the CAPTURED variable, the plain assignment creates a local
         return ("fn", [], "int", [("decl", v, None, ("bin", "+", V(v), I(k)), ()), ("decl", v, None, ("bin", "*", V(v), I(2)), ()), ("return", V(v))])
@@ -141,7 +158,7 @@ def cases(draw):
             g.label("closure-created-in-block-over-shadowing-local:" + where)
             continue
         if shape == "single":
-            kind = g.choice(["inc", "read", "condinc", "shadow", "loopsum", "mcallarg", "localcopy"])
+            kind = g.choice(["inc", "read", "condinc", "shadow", "loopsum", "mcallarg", "localcopy", "inctwice", "loopshadow", "loopshadowinner", "ifshadow"])
             body = [("decl", local, None, V("init"), ()), ("return", body_for(kind, local, k=g.int(1, 3)))]
             facts.append((fname, "int"))
             stmts.append(("decl", fname, None, ("fn", [("init", "int")], FI, body), ()))
@@ -168,7 +185,7 @@ def cases(draw):
     nm = g.int(1, 4)
     for ci in range(nm):
         v = g.choice(mvars)
-        kind = g.choice(["read", "inc", "set", "shadow", "pure", "condinc", "read2", "loopsum", "mcallarg", "localcopy"])
+        kind = g.choice(["read", "inc", "set", "shadow", "pure", "condinc", "read2", "loopsum", "mcallarg", "localcopy", "inctwice", "loopshadow", "loopshadowinner", "ifshadow"])
         name = "m%d" % ci
         if kind == "read2":
             stmts.append(("decl", name, None, body_for(kind, v, g.choice(mvars)), ()))
@@ -268,6 +285,12 @@ def check(case):
             r.rejected = True
             if os.environ.get("MSV_DEBUG"):
                 print("REJECTED:\n" + src + "\n" + run.stdout[:600])
+            if failure is None:
+                # the reference interpreter runs this program to completion: a compile-time rejection of it is a violation
+                # (when the model predicts a run-time failure, the compiler may legitimately report it earlier)
+                diag = "\n".join(l for l in run.stdout.split("\n") if " = " in l or "-->" in l)[:600]
+                r.failure = fail("the compiler rejected a program that the language accepts and the reference interpreter runs:\n" + diag + "\n" + src,
+                                 "C07:rejected-valid-program", sc, case={"diagnostics": diag})
             return r
         feats = [l for l in case["labels"] if l in ("caller-owns-same-name", "factory-local-shadows-module-var") or l.startswith("feat:")]
         r.failure = fail("; ".join(fails) + "\n" + src, "C07:%s:%s:%s" % ("stdout" if run.stdout != out else "exit", run.klass, ",".join(feats)), sc, case={"source": src})
